@@ -1,7 +1,7 @@
 import Asts.Proofs.L1_b_C05
 
 /-! # L1_b — C07: rolling update honours the partition and goes highest-first; OnDelete never restarts -/
-namespace Asts
+namespace Asts.L1b
 open List
 
 /-- the model's partition (`getRollingUpdatePartition`) is the raw partition of the spec clamped at 0 -/
@@ -210,4 +210,4 @@ theorem C07_holds_total (v : SetView) (cur upd : String) (pods : List Pod) (f : 
     have : replicasOf v = r := by simp [replicasOf, hr]
     exact C07_holds v cur upd pods f r hr (this ▸ h0) hwf hids
 
-end Asts
+end Asts.L1b
